@@ -351,6 +351,8 @@ def verify(contract, all_contracts=(), timeout_ms=10000, mutate=None, negate_pos
             eng.caller_env = env
             eng.ghost_before_call = getattr(contract, 'ghost_before_call', {})
             env.vars['__locals__'] = assigned_names(body)
+            from .interp import number_loops
+            number_loops(body)
             old_vals = {k: eng.snapshot(v) for k, v in args.items()}
             old_vals.update({k: eng.snapshot(v) for k, v in eng.heap.items()})
             eng.inputs.update(eng.heap)
